@@ -174,3 +174,25 @@ Example C02_engine_example_case :
   (exists e, den 100 p = Ok e [7; 6; 7]%Z) /\
   (exists st T, run 200 (init (print p)) [] = Done st T /\ text_of T = words_text [7; 6; 7]%Z).
 Proof. vm_compute. repeat split; eexists; try eexists; repeat split. Qed.
+
+(* \newcommand with an optional argument is in F2 too: NDef true nm n (Some default) body is printed
+   \newcommand{\nm}[n+1][default]{body} (global, as plasTeX's \newcommand is), NCall nm (Some opt) args is \nm[opt]{..}{..};
+   defaults and optional arguments are plain words; gdef_safe also demands that [opt] is only written after a macro that has one.
+   \newcommand{\A}[2][W1 ]{#2#1}\A{W2 }\A[W3 ]{W4 }   ->   W2 W1 W4 W3 *)
+Example C02_engine_example_newcommand :
+  let p := ([NDef true 1 1 (Some [NWord 1]) [NParam 2; NParam 1];
+            NCall 1 None [[NWord 2]]; NCall 1 (Some [NWord 3]) [[NWord 4]]])%Z in
+  in_F2 p = true /\ gdef_safe 100 p = true /\
+  (exists e, den 100 p = Ok e [3; 4; 1; 2]%Z) /\
+  (exists st T, run 300 (init (print p)) [] = Done st T /\ text_of T = words_text [2; 1; 4; 3]%Z).
+Proof. vm_compute. repeat split; eexists; try eexists; repeat split. Qed.
+
+(* \let\new=\old (NLet, local, the meaning at that moment) is in F2:
+   \def\A{W1 }\let\B=\A \def\A{W2 }{\let\A=\B \A}\A \B   ->   W1 W2 W1 *)
+Example C02_engine_example_let :
+  let p := ([NDef false 1 O None [NWord 1]; NLet 2 1; NDef false 1 O None [NWord 2];
+            NGroup [NLet 1 2; NCall 1 None []]; NCall 1 None []; NCall 2 None []])%Z in
+  in_F2 p = true /\ gdef_safe 100 p = true /\
+  (exists e, den 100 p = Ok e [1; 2; 1]%Z) /\
+  (exists st T, run 300 (init (print p)) [] = Done st T /\ text_of T = words_text [1; 2; 1]%Z).
+Proof. vm_compute. repeat split; eexists; try eexists; repeat split. Qed.
